@@ -13,7 +13,7 @@ Kinds == {"string", "list", "bool", "int"}
 Vals(k) == CASE k = "string" -> {"", "a", "b"} [] k = "list" -> {<<>>, <<"x">>, <<"y", "z">>}
              [] k = "bool" -> {FALSE, TRUE} [] k = "int" -> {0, 1, 7}
 States == UNION { { [kind |-> k, base |-> b, ovf |-> o, ovg |-> g, ovstate |-> s] : b \in Vals(k), o \in Vals(k), g \in Vals(k),
-                     s \in {"noblock", "noleaf", "empty", "set"} } : k \in Kinds }
+                     s \in {"noblock", "noleaf", "empty", "set", "nullblock", "emptyblock"} } : k \in Kinds }
 Init == st \in { x \in States : (x.ovstate = "empty" => IsEmptyVal(x.kind, x.ovf)) /\ (x.ovstate = "set" => ~IsEmptyVal(x.kind, x.ovf)) }
 Next == UNCHANGED st
 Spec == Init /\ [][Next]_st
@@ -23,7 +23,7 @@ Eff(s) == Effective("leaf", s.kind, s.base, s.ovf, s.ovstate)
 OverrideLocality == \A g2 \in Vals(st.kind) : Eff([st EXCEPT !.ovg = g2]) = Eff(st)
 (* exactly the override when it is non-empty, else exactly the base *)
 OverrideExactness == Eff(st) = (IF st.ovstate = "set" THEN st.ovf ELSE st.base)
-NoBlockGetsBase == st.ovstate = "noblock" => Eff(st) = st.base
+NoBlockGetsBase == st.ovstate \in {"noblock", "nullblock", "emptyblock"} => Eff(st) = st.base
 
 Envs == { <<>>, <<[k |-> "VAR", v |-> "val"]>>, <<[k |-> "VAR", v |-> ""]>>, <<[k |-> "VAR", v |-> "$VAR"]>> }
 Raws == {"", "plain", "a b", "$VAR", "${VAR}", "x$VARy", "x${VAR}y", "$", "tail$", "${VAR", "$$VAR"}
